@@ -22,10 +22,38 @@ static void build_default_3arg(Gr& g, const Ctx& c) {
   galois::on_each([&](unsigned tid, unsigned total) { g.constructFrom(f, tid, total); });
 }
 
+// LC_Linear_Graph stores a node's edge records directly behind its node record.  The edge record
+// holds a pointer (8-byte alignment); without an in-line lock the node record can be 4 or 12 bytes.
+template <class Gr>
+struct LinearPeek : Gr {
+  static constexpr bool misaligned = sizeof(typename Gr::NodeInfo) % alignof(typename Gr::EdgeInfo) != 0;
+  static constexpr size_t node_size = sizeof(typename Gr::NodeInfo), edge_align = alignof(typename Gr::EdgeInfo);
+};
+
 // ------------------------------------------------ pointer-node LC layouts
 template <class Gr, bool IsLinear>
 static void run_ptr_t(const Ctx& c) {
   typedef typename Gr::edge_data_type E;
+  if constexpr (IsLinear) {
+    if (LinearPeek<Gr>::misaligned && c.m > 0) {
+      // known finding: probed by running the three construction steps on one thread in a child
+      G::FileGraph f;
+      f.fromFileInterleaved<typename Gr::file_edge_data_type>(c.path);
+      int how = probe_in_child([&] {
+        galois::setActiveThreads(1);
+        Gr* h = new Gr();
+        typename Gr::ReadGraphAuxData aux{};
+        h->allocateFrom(f, aux);
+        h->constructNodesFrom(f, 0, 1, aux);
+        h->constructEdgesFrom(f, 0, 1, aux);
+        _exit(0);
+      });
+      CCHECK(how == 0, "misaligned-edge-records",
+             "constructing an LC_Linear_Graph whose node record is %zu bytes (edge records need %zu-byte alignment) from %u nodes / %llu edges ends the process (%s %d)",
+             LinearPeek<Gr>::node_size, LinearPeek<Gr>::edge_align, c.n, (unsigned long long)c.m, how >= 1000 ? "exit status" : "signal",
+             how >= 1000 ? how - 1000 : how);
+    }
+  }
   Gr g;
   if constexpr (IsLinear)
     G::readGraph(g, c.path);
@@ -40,12 +68,16 @@ static void run_ptr_t(const Ctx& c) {
   Adj got   = observe_out(g, c, nm, c.flag(), c.m + 1);
   check_adj(c, got, model, false, "out-edges", "as built");
   model = got;
+  check_node_data(g, c, nm, model, c.m + 1);
   for (uint32_t u = 0; u < c.n; ++u)
     if (u < 64 || u + 4 >= c.n) {
       check_edge_range(g, c, nm.nodes[u], u, g.edges(nm.nodes[u], c.flag()), "edges");
       check_edge_range(g, c, nm.nodes[u], u, g.out_edges(nm.nodes[u], c.flag()), "out_edges");
     }
-  check_local_ranges(g, c, nm);
+  // (local_begin() of an empty LC_InlineEdge_Graph forms &nodeData[0] on a null array: harmless, but a
+  // non-recoverable UBSan report in this build; the empty partition is not queried there)
+  if (IsLinear || c.n > 0)
+    check_local_ranges(g, c, nm);
   if constexpr (IsLinear) {
     int step = 0;
     for (int op : c.ops) {
@@ -141,8 +173,18 @@ static void run_linear_e(const Ctx& c) {
   int cfg             = (c.opts & 7) % 6;
   if (!full)
     cfg = cfg % 2;
+  if (c.kind == K_LINEAR && linear_cfg_misaligned(cfg) && excluded(KEY_LINEAR_MISALIGNED)) {
+    count_excluded(); // known finding: these option combinations are not built
+    cfg = 0;
+  }
   label("cfg", std::to_string(cfg));
   if (c.kind == K_LINEAR) {
+    if constexpr (full) {
+      static_assert(LinearPeek<typename LinT<E, 3>::type>::misaligned && LinearPeek<typename LinT<E, 5>::type>::misaligned, "cfg table");
+      static_assert(!LinearPeek<typename LinT<E, 0>::type>::misaligned && !LinearPeek<typename LinT<E, 1>::type>::misaligned &&
+                        !LinearPeek<typename LinT<E, 2>::type>::misaligned && !LinearPeek<typename LinT<E, 4>::type>::misaligned,
+                    "cfg table");
+    }
     switch (cfg) {
     case 0:
       return run_ptr_t<typename LinT<E, 0>::type, true>(c);
@@ -260,6 +302,7 @@ static void run_inout_t(const Ctx& c) {
     model = observe_out(g, c, nm, c.flag(), c.m + 1);
     check_adj(c, model, c.adj, false, "out-edges", "out-edges as built");
   }
+  check_node_data(g, c, nm, model, c.m + 1);
   Adj in = inout_observe_in(g, c, nm);
   check_adj(c, in, reversed(c.adj), false, "in-edges", sym ? "in-edges (symmetric file)" : "in-edges (transpose file)");
   check_local_ranges(g, c, nm);
